@@ -223,6 +223,11 @@ func buildFaults(m *gen.Model, base *gen.Rendered, r *xrand.Rand) []fault {
 		{"duplicate-url-path-bare-then-bare", "URL /zzmixed/five\nTYPE @zzbetween any\nURL /zzmixed/five\n"},
 		{"duplicate-url-path-rpc-then-rpc", "URL /zzmixed/six\n  Protocol json-rpc-2.0\n  Method ping\n    Params\n      {}\nURL /zzmixed/six\n  Protocol json-rpc-2.0\n  Method pong\n    Params\n      {}\n"},
 		{"duplicate-url-path-rpc-then-pasted-http", "MACRO @zzmixedM\n(\n  URL /zzmixed/seven\n    GET\n      200 any\n)\nURL /zzmixed/seven\n  Protocol json-rpc-2.0\n  Method ping\n    Params\n      {}\nPASTE @zzmixedM\n"},
+		{"second-Headers-under-a-second-Request", "POST /zzsecondrequest\n  Request\n    Headers\n      {\"a\": \"1\"}\n  Request\n    Headers\n      {\"b\": \"2\"}\n    Body any\n  200 any\n"},
+		{"second-Headers-under-a-second-Request-pasted", "MACRO @zzsecondHeadersM\n(\n  Headers\n    {\"b\": \"2\"}\n)\nPOST /zzsecondrequestp\n  Request\n    Headers\n      {\"a\": \"1\"}\n  Request\n    PASTE @zzsecondHeadersM\n    Body any\n  200 any\n"},
+		{"second-Body-under-a-second-Request", "POST /zzsecondbody\n  Request\n    Body any\n  Request\n    Body empty\n  200 any\n"},
+		{"second-Protocol-after-a-Method", "URL /zzprotoafter\n  Method first\n    Params\n      {}\n  Protocol json-rpc-2.0\n  Method second\n    Params\n      {}\n  Protocol json-rpc-2.0\n"},
+		{"second-Protocol-after-Tags-and-Method", "TAG @zzpt\nURL /zzprotoafter2\n  Tags @zzpt\n  Method first\n    Params\n      {}\n  Protocol json-rpc-2.0\n  Protocol json-rpc-2.0\n"},
 		{"type-without-name-regex", "TYPE regex\n/ab+/\n"},
 		{"type-without-name-any", "TYPE any\n"},
 		{"type-without-name-empty", "TYPE empty\n"},
